@@ -28,7 +28,7 @@ let maxi k v = Hashtbl.replace cnt k (max v (try Hashtbl.find cnt k with Not_fou
 
 let st = ref st0
 let out = Buffer.create 65536
-let say s = Buffer.add_string out s; Buffer.add_char out '\n'
+let say s = print_string s; print_char '\n'; flush stdout
 
 (* ---------------------------------------------------------------- raw bytes of one block *)
 type blockrec = { op : string list; status : int option; data : string option; raws : (int * string) list }
@@ -86,6 +86,7 @@ let decode (raws : (int * string) list) : (rstruct, string) result =
            | None -> Error "table header not dumped"
            | Some te ->
              let cntE = (lin te - lin dc - 16) / 24 in
+             if cntE < 0 || cntE > 70000 then Error "data-chunk table of an impossible length" else
              let ok = ref (tag_at (lin dc) tag_DCtb && tag_at (lin te) tag_dcTE) in
              let es = ref [] and owns = ref [] and bad = ref None in
              for i = 0 to cntE - 1 do
@@ -350,5 +351,4 @@ let run () =
      done
    with End_of_file -> finish ());
   let keys = List.sort compare (Hashtbl.fold (fun k _ acc -> k :: acc) cnt []) in
-  say ("SUMMARY " ^ String.concat " " (List.map (fun k -> Printf.sprintf "%s=%d" k (Hashtbl.find cnt k)) keys));
-  print_string (Buffer.contents out)
+  say ("SUMMARY " ^ String.concat " " (List.map (fun k -> Printf.sprintf "%s=%d" k (Hashtbl.find cnt k)) keys))
